@@ -645,6 +645,54 @@ impl<'tcx> Cx<'tcx> {
         out
     }
 
+    /// crates whose items (types, functions) are mentioned by the body: local types, callee definitions and their generic arguments
+    fn body_crates(&self, body: &Body<'tcx>) -> J {
+        use rustc_middle::ty::{TypeSuperVisitable, TypeVisitable, TypeVisitor};
+        struct V<'a, 'tcx> {
+            tcx: TyCtxt<'tcx>,
+            out: &'a mut std::collections::BTreeSet<String>,
+        }
+        impl<'a, 'tcx> TypeVisitor<TyCtxt<'tcx>> for V<'a, 'tcx> {
+            fn visit_ty(&mut self, t: Ty<'tcx>) {
+                match t.kind() {
+                    ty::Adt(adt, _) => {
+                        self.out.insert(self.tcx.crate_name(adt.did().krate).to_string());
+                    }
+                    ty::FnDef(did, _) => {
+                        self.out.insert(self.tcx.crate_name(did.krate).to_string());
+                    }
+                    _ => {}
+                }
+                t.super_visit_with(self)
+            }
+        }
+        let mut set = std::collections::BTreeSet::new();
+        {
+            let mut v = V { tcx: self.tcx, out: &mut set };
+            for d in body.local_decls.iter() {
+                d.ty.visit_with(&mut v);
+            }
+            for data in body.basic_blocks.iter() {
+                if let TerminatorKind::Call { func, .. } = &data.terminator().kind {
+                    if let Operand::Constant(c) = func {
+                        c.const_.ty().visit_with(&mut v);
+                    }
+                }
+                for st in &data.statements {
+                    if let StatementKind::Assign(b) = &st.kind {
+                        if let Rvalue::Use(Operand::Constant(c), ..) = &b.1 {
+                            c.const_.ty().visit_with(&mut v);
+                        }
+                        if let Rvalue::Cast(_, Operand::Constant(c), _) = &b.1 {
+                            c.const_.ty().visit_with(&mut v);
+                        }
+                    }
+                }
+            }
+        }
+        J::Arr(set.into_iter().map(s).collect())
+    }
+
     fn line(&self, sp: rustc_span::Span) -> i128 {
         // line of the outermost (source) call site so that macro-expanded code maps to the user line
         let sp = sp.source_callsite();
@@ -801,6 +849,7 @@ fn export<'tcx>(tcx: TyCtxt<'tcx>) -> J {
             o.push(("where", cx.predicates(did)));
         }
         o.extend(cx.body(did, body));
+        o.push(("crates", cx.body_crates(body)));
         fns.push(J::Obj(o));
     }
 
